@@ -794,7 +794,7 @@ func compareDelta(got map[uint64]int32, cur, prev map[uint64]int64) string {
 }
 
 func genViews(t *rapid.T) viewsCase {
-	g := blockgen.Shape(t, "shape", shapeOpts(4, rapid.IntRange(0, 5).Draw(t, "allow-big") == 0))
+	g := blockgen.Shape(t, "shape", shapeOpts(4, rapid.IntRange(0, 5).Draw(t, "allow-big") == 5))
 	if g[0]*g[1]*g[2] > 512 { // keep the row of blocks affordable
 		g = [3]int{8, 8, 8}
 	}
@@ -848,7 +848,7 @@ func genViews(t *rapid.T) viewsCase {
 	sort.Slice(pl, func(i, j int) bool { return pl[i] < pl[j] })
 	// aliasing pre-op on block 0
 	l0 := model.SortedLabels(arr0)
-	if len(l0) >= 3 && rapid.IntRange(0, 3).Draw(t, "alias") == 0 {
+	if len(l0) >= 3 && rapid.IntRange(0, 3).Draw(t, "alias") == 3 {
 		c.Alias = rapid.SampledFrom([]string{"replace", "merge"}).Draw(t, "alias-kind")
 		c.AliasSeed = rapid.Uint64().Draw(t, "alias-seed")
 		nz := l0
@@ -856,7 +856,7 @@ func genViews(t *rapid.T) viewsCase {
 			nz = nz[1:]
 		}
 		c.AliasTo = rapid.SampledFrom(nz).Draw(t, "alias-to")
-		if c.Alias == "merge" && rapid.IntRange(0, 3).Draw(t, "alias-to-absent") == 0 {
+		if c.Alias == "merge" && rapid.IntRange(0, 3).Draw(t, "alias-to-absent") == 3 {
 			c.AliasTo = 1<<40 + 7
 		}
 		n := rapid.IntRange(1, 3).Draw(t, "alias-n")
@@ -883,7 +883,7 @@ func genViews(t *rapid.T) viewsCase {
 	ns := rapid.IntRange(1, 3).Draw(t, "nsel")
 	for i := 0; i < ns; i++ {
 		var l uint64
-		if rapid.IntRange(0, 7).Draw(t, "sel-absent") == 0 {
+		if rapid.IntRange(0, 7).Draw(t, "sel-absent") == 7 {
 			l = 1<<41 + uint64(i)
 		} else {
 			l = rapid.SampledFrom(pl).Draw(t, "sel")
@@ -1045,26 +1045,9 @@ func fuzzDecode(data []byte) ([]uint64, model.Dims) {
 	return arr, d
 }
 
-// listedKnown: the driver does not pass VERIF_KNOWN_SIGS to native fuzz runs, so the fuzz target also
-// looks the signature up in $VERIF_DIR/KNOWN_FINDINGS.txt.
-func listedKnown(sig string) bool {
-	if stats.IsKnown(sig) {
-		return true
-	}
-	dir := os.Getenv("VERIF_DIR")
-	if dir == "" || os.Getenv("VERIF_KNOWN_SIGS") != "" {
-		return false
-	}
-	b, err := os.ReadFile(dir + "/KNOWN_FINDINGS.txt")
-	if err != nil {
-		return false
-	}
-	return bytes.Contains(b, []byte("property=C09 signature="+sig+" "))
-}
-
 func fuzzOne(data []byte) error {
 	arr, d := fuzzDecode(data)
-	if (d[0]/8)*(d[1]/8)*(d[2]/8)%2 == 1 && listedKnown(sigOdd) {
+	if (d[0]/8)*(d[1]/8)*(d[2]/8)%2 == 1 && stats.IsKnown(sigOdd) {
 		// steer around the known finding: same content stream, one more sub-block along x
 		data = append([]byte(nil), data...)
 		for len(data) < 5 {
